@@ -105,7 +105,8 @@ def gateshape(cx, fn):
                       key='mask-identity|' + norm_stmt(r.value.func))
     for r in short:
         cx.need(isinstance(r.value, ast.Name), '%s: short return is not a plain name: %s' % (fn.qual, norm_stmt(r)))
-        # pair with the full return that is the sibling branch of the same `if`
+        # pair with the full return that is the other outcome of the same `if full_output` (either the
+        # sibling branch, or - after flattening of `else` - the `if` statement just before this return)
         sib = None
         for a in fn.ancestors(r):
             if isinstance(a, ast.If):
@@ -113,6 +114,13 @@ def gateshape(cx, fn):
                 if cands:
                     sib = cands[0]
                     break
+        if sib is None:
+            from ..rules import block_of
+            blk, i = block_of(fn, r)
+            if blk is not None and i > 0 and isinstance(blk[i - 1], ast.If):
+                cands = [f for f in full if fn.in_body_of(f, blk[i - 1], 'body')]
+                if cands:
+                    sib = cands[0]
         cx.need(sib is not None, '%s: short return without sibling full return' % fn.qual)
         fields = output_ctor(fn, sib.value)
         gd = kwarg(sib.value, 'gated_data', fields.index('gated_data'))
